@@ -6,6 +6,12 @@ from checks import c01
 
 P = "UscxmlVerif.Properties.C02."
 THEOREMS = [
+    (P + "configuration_is_legal_partial", "proved", "C02 for the two interpreter engines on charts without <history> and <initial> elements, all six clauses: for every coherent chart numbered in pre-order that meets the decidable EntryOk / DownOk / XorOk / SelPlain / SelPlainF (evaluated on every generated chart: suite theorem-hypotheses), after EVERY sequence of API operations on EITHER engine, once the first step was taken, Spec.Legal.legal holds of the configuration: root, no duplicates, proper states of the chart, every state's parent, exactly one child of every active compound state, all children of every active parallel state, an atomic state. PARTIAL with respect to the property: generated machines (C04/C06/C18), <initial> elements (clauses 1-4 and the at-least halves proved) and histories (false of the code: hist-shared) are outside"),
+    (P + "step_keeps_legal", "proved", "one step of either engine keeps the whole invariant from any state that has it"),
+    ("UscxmlVerif.Proofs.XorSel.e0_xor", "proved", "the targets of a conflict-free selection with their ancestors, together with the states that stay active, never hold two different children of a compound state (legal target sets; nested domains of different selected transitions would overlap)"),
+    ("UscxmlVerif.Proofs.Xor.descVisit_xor", "proved", "a visit of LargeMicroStep's descendant loop keeps that: a compound state gets its default completion only while none of its children is in the entry set or stays active"),
+    ("UscxmlVerif.Proofs.XorFast.fast_descVisit_xor", "proved", "the same for FastMicroStep's loop (its test looks at descendants and at what is exited)"),
+    ("UscxmlVerif.Proofs.LegalThm.legal_of_invariants", "proved", "root active + ascending + parent-closed + complete downwards + at most one child = Spec.Legal.legal"),
     (P + "configuration_is_a_set_of_real_states_partial", "proved", "PARTIAL (2 of the 6 clauses of legality): for every chart, both engine models and every sequence of API operations the configuration is strictly ascending in document order, duplicate-free and holds no <history>/<initial> pseudo-state. Root active, parent closure, one child per compound / all children of a parallel, an atomic state: not proved (false of the code on charts with nested histories - finding hist-shared), decided per run"),
     (P + "root_is_never_exited_partial", "proved", "PARTIAL (half of clause 1): a step of either engine never removes the root from the configuration, on any chart"),
     (P + "exiting_never_orphans_partial", "proved", "PARTIAL (exit half of the parent clause): for every well-formed document, removing the exit set LargeMicroStep computed from a parent-closed configuration leaves a parent-closed configuration"),
@@ -23,8 +29,8 @@ THEOREMS = [
     ("UscxmlVerif.Proofs.ParentsFast.fast_descLoop_inv", "proved", "the same for FastMicroStep's entry loop"),
     (P + "step_keeps_set", "proved", "one step of either engine keeps that invariant from any state that has it"),
 ]
-FINISH = {"level": "exploration"}   # the four structural clauses of legality are decided by exploration only
-LEAN_FILES = ["UscxmlVerif.Properties.C02", "UscxmlVerif.Proofs.CfgInv", "UscxmlVerif.Proofs.Root", "UscxmlVerif.Proofs.ExitClosed", "UscxmlVerif.Proofs.EntryClosed", "UscxmlVerif.Proofs.Parents", "UscxmlVerif.Proofs.ParentsFast", "UscxmlVerif.Proofs.EntryDoc", "UscxmlVerif.Proofs.SortedIns", "UscxmlVerif.Proofs.Down", "UscxmlVerif.Proofs.DownExit", "UscxmlVerif.Proofs.DownRun", "UscxmlVerif.Proofs.DownOk", "UscxmlVerif.Proofs.DownFast", "UscxmlVerif.Proofs.DownRunFast", "UscxmlVerif.Proofs.RootActive"]
+FINISH = {"level": "proof"}   # configuration_is_legal_partial (charts without history / initial elements); the rest by exploration
+LEAN_FILES = ["UscxmlVerif.Properties.C02", "UscxmlVerif.Proofs.CfgInv", "UscxmlVerif.Proofs.Root", "UscxmlVerif.Proofs.ExitClosed", "UscxmlVerif.Proofs.EntryClosed", "UscxmlVerif.Proofs.Parents", "UscxmlVerif.Proofs.ParentsFast", "UscxmlVerif.Proofs.EntryDoc", "UscxmlVerif.Proofs.SortedIns", "UscxmlVerif.Proofs.Down", "UscxmlVerif.Proofs.DownExit", "UscxmlVerif.Proofs.DownRun", "UscxmlVerif.Proofs.DownOk", "UscxmlVerif.Proofs.DownFast", "UscxmlVerif.Proofs.DownRunFast", "UscxmlVerif.Proofs.RootActive", "UscxmlVerif.Proofs.Xor", "UscxmlVerif.Proofs.XorSel", "UscxmlVerif.Proofs.XorRun", "UscxmlVerif.Proofs.XorFast", "UscxmlVerif.Proofs.XorOk", "UscxmlVerif.Proofs.LegalThm"]
 
 
 def cfgs_of(tokens):
